@@ -63,7 +63,7 @@ Definition model_agrees (c : case) (e : ecase) : bool :=
   end.
 
 (* ---------- the property monitor on the observation ---------- *)
-Definition o_handling (o : oem) : bool := negb (is_probe_data (o_data o)).
+Definition o_handling (o : oem) : bool := negb (is_marker (o_sink o) (o_data o)).
 
 Definition event_monitor (c : case) (e : ecase) : codes :=
   let w := widen_of (c_widen c) in
